@@ -1,6 +1,8 @@
 """C14 - parsed objects are values: equality, hashing, copying and repr agree."""
 import copy
+import os
 import pickle
+import sys
 import random
 
 from common import Driver, codes
@@ -187,6 +189,7 @@ def run(tier, seed, lean):
     evals = 0
     nontrivial = set()
     samples = []
+    kept_for_pickle = []
     stats = {'equal_pairs': 0, 'unequal_pairs': 0, 'replace_cases': 0, 'copy_cases': 0, 'triples': 0}
 
     def viol(key, what, **kw):
@@ -279,6 +282,7 @@ def run(tier, seed, lean):
                 if not (c == o) or c is o or wire_of_value(c) != wire_of_value(o):
                     viol(f'deepcopy|{wires[0]}', f'deepcopy: copy {c!r} of {o!r} is not an equal, independent object with the same metadata')
                 p = pickle.loads(pickle.dumps(o))
+                kept_for_pickle.append(o)
                 if not (p == o) or wire_of_value(p) != wire_of_value(o):
                     viol(f'pickle|{wires[0]}', f'pickle: round trip of {o!r} gave {p!r}')
                 e = eval(repr(o), vars(mod))
@@ -289,6 +293,52 @@ def run(tier, seed, lean):
         if len(samples) < 3 and pi % 97 == 0:
             samples.append({'pool': wires[:4]})
     drv.close()
+    # equal objects have equal hashes - also an object that was hashed, pickled and loaded by another process (string hashes
+    # are salted per process), compared there with an equal object built in that process
+    crossed = 0
+    try:
+        import subprocess, common
+        objs = [o for o in kept_for_pickle if safe_hash(o) is not None][:40]
+        child = ('import sys, pickle\n'
+                 f'sys.path.insert(0, {common.REPO!r})\n'
+                 'from sourcer import Grammar\n'
+                 f'mod = Grammar({GRAMMAR!r})\n'
+                 'objs = pickle.loads(bytes.fromhex(sys.stdin.read()))\n'
+                 'bad = []\n'
+                 'for i, o in enumerate(objs):\n'
+                 '    e = eval(repr(o), vars(mod))\n'
+                 '    if not (o == e and hash(o) == hash(e)):\n'
+                 '        bad.append((i, repr(o)[:120], o == e, hash(o) == hash(e)))\n'
+                 'print(repr(bad))\n')
+        env = dict(os.environ, PYTHONHASHSEED=str(1000 + seed))
+        p = subprocess.run([sys.executable, '-c', child], input=pickle.dumps(objs).hex(), capture_output=True, text=True, timeout=120, env=env)
+        if p.returncode != 0:
+            viol('pickle-cross|error', f'pickle: loading {len(objs)} pickled objects in another process failed: {p.stderr.strip()[-200:]}')
+        else:
+            crossed = len(objs)
+            for i, r, eq, heq in eval(p.stdout.strip() or '[]'):
+                viol(f'pickle-cross|{r}', f'pickle: {r} hashed, pickled and loaded in a process with another hash seed: equal to a rebuilt copy: {eq}, same hash: {heq}')
+    except subprocess.TimeoutExpired:
+        broken.append({'key': 'pickle-cross-timeout', 'what': 'the cross-process pickle probe timed out'})
+    stats['pickled_across_processes'] = crossed
+    # a tree deeper than Python's recursion limit (parsing builds such trees without difficulty): every operation of the
+    # property still has to work on it
+    deep_a = deep_b = 1
+    for _ in range(3000):
+        deep_a, deep_b = mod.U(deep_a), mod.U(deep_b)
+    for opname, op in (('==', lambda: deep_a == deep_b), ('hash', lambda: hash(deep_a) == hash(deep_b)), ('repr', lambda: len(repr(deep_a)) > 0),
+                       ('deepcopy', lambda: copy.deepcopy(deep_a) is not None), ('pickle', lambda: len(pickle.dumps(deep_a)) > 0),
+                       ('_replace', lambda: deep_a._replace(a=2).a == 2), ('_asdict', lambda: list(deep_a._asdict()) == ['a'])):
+        evals += 1
+        try:
+            if op() is not True:
+                viol(f'deep|{opname}', f'deep tree: {opname} on a chain of 3000 nested objects gives a wrong answer')
+        except RecursionError:
+            viol(f'deep|{opname}', f'deep tree: {opname} on a chain of 3000 nested objects raises RecursionError', finding_class='deep-tree-recursion')
+        except Exception as exc:          # noqa: BLE001
+            viol(f'deep|{opname}', f'deep tree: {opname} on a chain of 3000 nested objects raises {type(exc).__name__}: {str(exc)[:100]}')
+    del deep_a, deep_b
+    evals += crossed
     cov = {
         'evaluations': evals,
         'distinct_nontrivial': len(nontrivial),
